@@ -60,6 +60,7 @@ type Ctx struct {
 	Transitions atomic.Int64
 	Traces      atomic.Int64
 	Evals       atomic.Int64
+	Skipped     atomic.Int64 // cases whose premise could not be established (not counted as checked)
 	nontrivial  sync.Map
 	ntCount     atomic.Int64
 	outcomes    sync.Map
@@ -240,6 +241,9 @@ func (c *Ctx) writeEvidence(nviol int, known int) {
 		"exhaustive":                    c.Exhaustive && !c.capped.Load(),
 		"bound":                         c.Bound,
 		"known_findings_reobserved":     known,
+	}
+	if n := c.Skipped.Load(); n > 0 {
+		cov["cases_skipped_premise_not_established"] = n
 	}
 	if c.capped.Load() {
 		cov["cap_hit"] = "internal deadline reached; counts describe what was completed"
